@@ -7,6 +7,8 @@ from .. import paths
 from ..core import FUNC, call_attr, calls_in, const, dotted, is_const, kwarg, norm, slice_parts, text, walk_local
 
 EXPLANATION = [
+    'C17.continuation-kept: the parse-failure branch of sdp.Server.on_pdu does not assign current_response(s): garbage between continuation requests does not cost the transaction.',
+    'C17.unhandled-rejected: ChannelManager.on_control_frame sends a Command Reject on every path on which no handler was found.',
     'C17.ertm-sdu-start: EnhancedRetransmissionProcessor.on_pdu assigns the reassembly buffer for START / UNSEGMENTED I-frames and appends only for CONTINUATION / END.',
     'C17.pump-ends: a `while True` read loop of bumble.transport.common that catches Exception and continues has an earlier handler that leaves the loop on IncompleteReadError (end of stream fails immediately and for ever).',
     'C17.one-parser: no method of sdp.DataElementParser creates another DataElementParser: nesting is parsed by the one parser whose depth counter the guard tests.',
@@ -1245,7 +1247,51 @@ def ertm_sdu_start(ctx):
     R.check(len(writes) >= 2 and not bad, rule, 'bumble.l2cap.EnhancedRetransmissionProcessor.on_pdu', f'{len(writes)} writes: START / UNSEGMENTED assign, CONTINUATION / END append', f'for {bad[0][0] if bad else "?"} frames the payload is `{norm(bad[0][1])[:50] if bad else ""}`: an I-frame that starts an SDU is appended to an unfinished reassembly - garbage a peer left there is delivered in front of the next well-formed request', p.loc(bad[0][1]) if bad else p.loc(onp))
 
 
+def unhandled_rejected(ctx):
+    """A signalling command the manager has no handler for is answered with Command Reject on every path (requests are not
+    all even-numbered: 0x17 and 0x19 are requests), so the peer\'s transaction ends."""
+    R, p = ctx.r, ctx.p
+    rule = 'C17.unhandled-rejected'
+    fn = p.find('bumble.l2cap.ChannelManager.on_control_frame')
+    if fn is None:
+        R.bad(rule, 'bumble.l2cap.ChannelManager.on_control_frame', 'anchor missing')
+        return
+
+    class D(paths.Domain):
+        def assume(self, atom, truth, v):
+            if norm(atom) == 'handler':
+                return ('handled' if truth else 'unhandled',)
+            return (v,)
+
+        def event(self, node, v):
+            if isinstance(node, ast.Call) and dotted(node.func) == 'self.send_control_frame' and any(isinstance(x, ast.Call) and call_attr(x) == 'L2CAP_Command_Reject' for x in ast.walk(node)) and v == 'unhandled':
+                return ('rejected',)
+            return (v,)
+    res = paths.run(fn, D(), 'start')
+    bad = [f'{k} via {" ".join(w)}' for k, st in res.items() if not k.startswith('raise') for v, w in st.items() if v == 'unhandled']
+    seen = any(v == 'rejected' for st in res.values() for v in st)
+    R.check(seen and not bad, rule, 'bumble.l2cap.ChannelManager.on_control_frame | no handler', 'Command Reject on every path', f'a command without handler can be dropped silently ({bad[:1]}): the peer\'s request (a Credit Based Reconfigure Request, any code the manager does not implement) is never answered', p.loc(fn))
+
+
+def continuation_kept(ctx):
+    """A PDU that cannot be parsed does not touch the SDP server\'s continuation state: `current_response` is written by
+    the handlers of valid requests (and saved / restored per channel), not by the parse-failure branch of on_pdu."""
+    R, p = ctx.r, ctx.p
+    rule = 'C17.continuation-kept'
+    fn = p.find('bumble.sdp.Server.on_pdu')
+    if fn is None:
+        R.bad(rule, 'bumble.sdp.Server.on_pdu', 'anchor missing')
+        return
+    hs = [h for t in walk_local(fn) if isinstance(t, ast.Try) and any((dotted(c.func) or '').endswith('SDP_PDU.from_bytes') for s_ in t.body for c in calls_in(s_)) for h in t.handlers]
+    R.check(len(hs) >= 1, rule, 'bumble.sdp.Server.on_pdu | parse failure', f'{len(hs)} handler(s)', 'no handler around SDP_PDU.from_bytes (anchor)', p.loc(fn))
+    for h in hs:
+        w = [s_ for s_ in ast.walk(h) if isinstance(s_, (ast.Assign, ast.AugAssign, ast.Delete)) and any('current_response' in norm(t) for t in (s_.targets if not isinstance(s_, ast.AugAssign) else [s_.target]))]
+        R.check(not w, rule, 'bumble.sdp.Server.on_pdu | parse failure keeps the state', 'current_response untouched', f'`{norm(w[0])[:50] if w else ""}` in the parse-failure branch: garbage sent in the middle of a continued transaction discards the rest of the response, the client\'s next (valid) continuation request is refused with INVALID_CONTINUATION_STATE', p.loc(w[0]) if w else p.loc(h))
+
+
 RULES = [
+    ('C17.continuation-kept', continuation_kept),
+    ('C17.unhandled-rejected', unhandled_rejected),
     ('C17.ertm-sdu-start', ertm_sdu_start),
     ('C17.pump-ends', pump_ends),
     ('C17.one-parser', one_parser),
